@@ -30,7 +30,13 @@ func VerifC19Step() {
 	}
 	m[ko] = oldOther
 	ts := verifUint32("ts")
+	mark := verifTraceMark()
 	err := Ordered(key, ts)
+	if verifIsSymbolic() {
+		// atomicity of the compare-and-set: the whole call runs under ONE exclusive lock acquisition (no
+		// read lock, no second acquisition between the comparison and the store)
+		verifAssert(verifCalledSince(mark, ").Lock") == 1 && verifCalledSince(mark, ").RLock") == 0, "structural/one-exclusive-lock-around-compare-and-set")
+	}
 	if ts > old {
 		verifAssert(err == nil, "newer-point-accepted")
 		verifAssert(m[k] == ts, "accepted-timestamp-stored")
